@@ -230,29 +230,44 @@ def runCase (c : Sexp) : String := Id.run do
     let mut st : VM.RunSt := { env := env }
     let mut i := 0
     let mut later : List (Str × VM.FnImpl) := []
-    for r in runs do
-      let obj := match r.args with | o :: _ => hostValOf o | _ => HostVal.nilIface
-      let polls : Int := match r.args with | _ :: p :: _ => p.int | _ => -1
-      -- functions the host registers (again) just before this run: the last registration of a name wins
-      let more := match r.args with
-        | _ :: _ :: f :: _ => f.args.map (fun (p : Sexp) => match p.items with | [n, f] => (Sexp.str n, VM.FnImpl.host (hostFnOf f)) | _ => ([], VM.FnImpl.host .void))
-        | _ => []
-      later := later ++ more
-      let M := { p.machine with fns := p.machine.fns ++ later, done := fun n => polls ≥ 0 && (n : Int) ≥ polls }
-      let st0 : VM.RunSt := { env := st.env, out := [], polls := 0 }
-      let (res, st') := Api.execute M obj st0
-      st := st'
-      out := out ++ s!" r{i}=" ++ showRes res
-      out := out ++ s!" o{i}=" ++ hexOfStr st'.out
-      out := out ++ s!" g{i}=" ++ showGlobals st'.env.globals
-      out := out ++ s!" s{i}=" ++ toString st'.env.scopes.length
-      out := out ++ s!" p{i}=" ++ toString st'.polls
-      if shows.contains "spec" then
-        out := out ++ s!" t{i}=" ++ (match res with | .ok v => (if v.truthy then "1" else "0") | _ => "-")
-        let probe0 : List Str := ["v", "w", "x", "unset", "neverAssigned", "OPTIMIZE"].map String.toList
-        let probe := vars.foldl (fun acc (n, _) => if acc.contains n then acc else acc ++ [n]) probe0
-        out := out ++ s!" a{i}=" ++ ",".intercalate (probe.map (fun n => hexOfStr n ++ ":" ++ showValue (Api.getVariable st'.env n)))
-      i := i + 1
+    let mut machine := p.machine
+    -- the runs; then, if the case says so, the same evaluator prepared AGAIN with another script (its variables
+    -- stay, everything of the old script is gone) and the runs once more
+    let again : Option (List Char) := match c.find "again" with | some s => some (s.args.headD (.atom "")).str | none => none
+    for series in [0, 1] do
+      if series == 1 then
+        match again with
+        | none => break
+        | some script2 =>
+          match Api.prepare script2 optimize st.env (allFns ++ later) (fun _ => false) with
+          | .error _ => out := out ++ " prep2=err"; break
+          | .ok (p2, env2) =>
+            out := out ++ " prep2=ok"
+            machine := p2.machine
+            st := { st with env := env2 }
+      for r in runs do
+        let obj := match r.args with | o :: _ => hostValOf o | _ => HostVal.nilIface
+        let polls : Int := match r.args with | _ :: p :: _ => p.int | _ => -1
+        -- functions the host registers (again) just before this run: the last registration of a name wins
+        let more := match r.args with
+          | _ :: _ :: f :: _ => f.args.map (fun (p : Sexp) => match p.items with | [n, f] => (Sexp.str n, VM.FnImpl.host (hostFnOf f)) | _ => ([], VM.FnImpl.host .void))
+          | _ => []
+        later := later ++ more
+        let M := { machine with fns := machine.fns ++ later, done := fun n => polls ≥ 0 && (n : Int) ≥ polls }
+        let st0 : VM.RunSt := { env := st.env, out := [], polls := 0 }
+        let (res, st') := Api.execute M obj st0
+        st := st'
+        out := out ++ s!" r{i}=" ++ showRes res
+        out := out ++ s!" o{i}=" ++ hexOfStr st'.out
+        out := out ++ s!" g{i}=" ++ showGlobals st'.env.globals
+        out := out ++ s!" s{i}=" ++ toString st'.env.scopes.length
+        out := out ++ s!" p{i}=" ++ toString st'.polls
+        if shows.contains "spec" then
+          out := out ++ s!" t{i}=" ++ (match res with | .ok v => (if v.truthy then "1" else "0") | _ => "-")
+          let probe0 : List Str := ["v", "w", "x", "unset", "neverAssigned", "OPTIMIZE"].map String.toList
+          let probe := vars.foldl (fun acc (n, _) => if acc.contains n then acc else acc ++ [n]) probe0
+          out := out ++ s!" a{i}=" ++ ",".intercalate (probe.map (fun n => hexOfStr n ++ ":" ++ showValue (Api.getVariable st'.env n)))
+        i := i + 1
     return out
 
 /-- `(wf ID (consts 0 1 …) (main #hex) (fn #hex) …)`: run the verifier on the bytes the implementation
